@@ -508,8 +508,16 @@ fn eval_cli(c: &DCase) -> CaseOutcome {
     let mut text = String::new();
     let mut sofar: Vec<(String, u16)> = Vec::new();
     let mut li = 0;
-    for d in &c.data {
+    // one program in three has ';' comments behind its data definitions (quotes, brackets and arrows inside them): the
+    // image is the one of the comment-free program
+    let commented = c.choices.get(2).map(|x| x % 3 == 0).unwrap_or(false);
+    const DATA_COMMENTS: [&str; 8] = ["; plain", "; two characters, shown as \"name\"", "; 5\" floppy", ";\"", "; say \"hi\" and \"bye\" ; more", "; it's [ 1 , 2 ]", "; db \"a;b\"", ";;"];
+    for (dk, d) in c.data.iter().enumerate() {
         text.push_str(&render_decl(d, &mut ch, &sofar));
+        if commented && (dk + c.choices.get(3).cloned().unwrap_or(0) as usize) % 2 == 0 {
+            text.push(' ');
+            text.push_str(DATA_COMMENTS[(dk + c.choices.get(4).cloned().unwrap_or(0) as usize) % DATA_COMMENTS.len()]);
+        }
         text.push('\n');
         if let DataDecl::Item { label: Some(_), .. } = d {
             let l = &lay.labels[li];
@@ -545,7 +553,11 @@ fn eval_cli(c: &DCase) -> CaseOutcome {
         return CaseOutcome::Fail { key: format!("c12|cli|{}", kind), what: d, replay };
     }
     let nt = lay.items.len() >= 3 && lay.labels.iter().any(|l| l.off > 0);
-    CaseOutcome::Pass { nontrivial: nt, classes: vec!["c12/cli-run".into()], digest: fnv_str(&text) }
+    let mut classes = vec!["c12/cli-run".to_string()];
+    if commented && text.contains("\" ;") {
+        classes.push("c12/cli-comment-behind-a-string".into());
+    }
+    CaseOutcome::Pass { nontrivial: nt, classes, digest: fnv_str(&text) }
 }
 
 /// a deterministic family around the 64 KiB boundary and the documented string limits,
